@@ -320,11 +320,21 @@ def check(ctx):
     rule_pipeline(ctx)
     rule_defaults(ctx)
     rule_align_dims(ctx)
+    # the labels of newly inserted positions are written through Axis.__setitem__ (shared with C05)
+    from . import c05 as _c05
+    ctx.rule('R11', 'Axis.__setitem__ keeps the widened label buffer it writes into', 1)
+    _c05.rule_axis_setitem(ctx, 'R11')
     rule_env(ctx)
     # the alignment step that operation() delegates to: reindex loop of align()
     from . import c06
     c06.rule_align(ctx, rid='R7')
     c06.rule_merge_cast(ctx, r8='R8', r9='R9')
+    # the fold that builds each common axis (placeholder axes of broadcast dimensions are the only operands it may skip), and the permutation step
+    from ..report import Renamed
+    ctx.rule('R12', 'common-axis fold (shared with C06) and transpose (shared with C10)', 3)
+    c06.rule_fold(Renamed(ctx, {'*': 'R12'}))
+    from . import c10
+    c10.rule_transpose(Renamed(ctx, {'*': 'R12'}))
     ctx.not_decided += ['per-coordinate numerical result', 'NaN placement for labels missing in one operand (C06/C07 clauses)']
     ctx.trusted += ['NumPy ufunc semantics', 'NumPy stub files list the public names of the pinned NumPy']
     return EXPLANATION
